@@ -142,6 +142,7 @@ func (o *Out) Emit(c Case) {
 	o.mu.Lock()
 	o.w.Write(b)
 	o.w.WriteByte('\n')
+	o.w.Flush() // a driver that is killed later must not lose what it has already found
 	o.mu.Unlock()
 }
 func (o *Out) Close() { o.w.Flush(); o.f.Close() }
